@@ -504,6 +504,41 @@ func (qtc *qualifiedTableCollector) toSlice() []QualifiedName {
 	return result
 }
 
+// columnRefs returns the column references written in the node itself: an Identifier other
+// than "*", and the column names MERGE keeps as plain strings (the SET column of a WHEN ...
+// THEN UPDATE action, possibly qualified as "table.column", and the column list of a WHEN ...
+// THEN INSERT action).
+func columnRefs(node ast.Node) []QualifiedName {
+	var refs []QualifiedName
+	add := func(table, name string) {
+		if name != "" && name != "*" {
+			refs = append(refs, QualifiedName{Table: table, Name: name})
+		}
+	}
+
+	switch n := node.(type) {
+	case *ast.Identifier:
+		if n != nil {
+			add(n.Table, n.Name)
+		}
+	case *ast.SetClause:
+		if n != nil {
+			if i := strings.LastIndex(n.Column, "."); i >= 0 {
+				add(n.Column[:i], n.Column[i+1:])
+			} else {
+				add("", n.Column)
+			}
+		}
+	case *ast.MergeAction:
+		if n != nil {
+			for _, name := range n.Columns {
+				add("", name)
+			}
+		}
+	}
+	return refs
+}
+
 // columnCollector collects column names from AST nodes
 type columnCollector struct {
 	nodeWalker
@@ -516,10 +551,8 @@ type columnCollector struct {
 // CASE, IN, BETWEEN, assignments, sub-queries, ...).
 func (cc *columnCollector) collectFromNode(node ast.Node) {
 	cc.walk(node, func(n ast.Node) {
-		if id, ok := n.(*ast.Identifier); ok && id != nil {
-			if id.Name != "" && id.Name != "*" {
-				cc.columns[id.Name] = true
-			}
+		for _, col := range columnRefs(n) {
+			cc.columns[col.Name] = true
 		}
 	})
 }
@@ -540,10 +573,8 @@ type qualifiedColumnCollector struct {
 
 func (qcc *qualifiedColumnCollector) collectFromNode(node ast.Node) {
 	qcc.walk(node, func(n ast.Node) {
-		if id, ok := n.(*ast.Identifier); ok && id != nil {
-			if id.Name != "" && id.Name != "*" {
-				qcc.addColumn(id.Table, id.Name)
-			}
+		for _, col := range columnRefs(n) {
+			qcc.addColumn(col.Table, col.Name)
 		}
 	})
 }
